@@ -39,7 +39,9 @@ CHECKS = {
             "deterministic simulation: seeded fragmentation/fault schedules over real Channel+Stream; fatal cut swept over every byte offset (thorough)",
             "Seeded search over packet sequences x fragmentation patterns x transient read errors, with the fatal-fault dimension enumerated: "
             "the thorough tier cuts the stream at every absolute byte offset (both directions, EOF and reset, sockets and pipes) of seeded short "
-            "workloads; quick samples offsets. Oracle: received == sent prefix, EOFError + closed stream on failure, transients never surface.",
+            "workloads; quick samples offsets. Oracle: received == sent prefix, EOFError + closed stream on failure, transients never surface. Also: stalled receiver with a "
+            "sender time-out, buffered file objects with a banner written before the stream is made, a second generation of pipes on reused "
+            "descriptor numbers with late calls on the closed first generation.",
             "DESIGN.md C05", ""),
     "C06": ("exploration",
             "deterministic simulation: the finite decision table (configuration x name class x object shape x operation) driven as raw requests through two live peers, plus multi-connection isolation histories; oracle = policy model + canary state",
@@ -47,7 +49,8 @@ CHECKS = {
             "state before/after and returned value show which attribute was really touched; verdict compared with a policy model written from the "
             "statement. Thorough sweeps all 2^7 switch settings x 4 prefixes x 15 names x 7 shapes x 7 operations completely (a full sweep of a "
             "finite table along seeded link schedules), quick samples; isolation runs interleave 2-4 differently configured connections incl. "
-            "classic mode and check DEFAULT_CONFIG is untouched.",
+            "classic mode and check DEFAULT_CONFIG is untouched; isolation also across one re-edited settings dict and across server objects "
+            "made without a configuration and re-configured in place.",
             "DESIGN.md C06", ""),
     "C07": ("exploration",
             "deterministic simulation with a simulated adversarial node: grammar-generated hostile message sequences from a scripted peer against a real default-configuration Connection with canaries, pickle/import spies and a second connection",
@@ -55,7 +58,8 @@ CHECKS = {
             "connection / stale identifiers, unsolicited replies, crafted exception payloads answering the victim's callbacks, reconnects after "
             "the victim hangs up). Oracle: no canary callable ran, no secret token or canary identifier in the bytes the victim wrote, no pickle "
             "use, no import or constructor, state unchanged except through legitimate calls, forged/foreign identifiers answered with an "
-            "exception, the second connection unharmed.",
+            "exception, the second connection unharmed. Also: lazily importable forged class names, a property canary, a gateway object that "
+            "lives behind another, trusting connection (raw pickle requests for it must be refused).",
             "DESIGN.md C07", ""),
     "C08": ("exploration",
             "deterministic simulation: seeded request streams between two live peers (or a scripted reference peer); oracle = frame ledger decoded from a wire tap",
@@ -88,7 +92,8 @@ CHECKS = {
             "a modelled fork) x TCP/unix listener x thread schedule. Oracle: clients connected at close see EOFError within 1 virtual second "
             "(never their timeout), on_disconnect exactly once per connection, new connects refused, second close harmless, descriptor census "
             "of the server process == listener + connected clients, server.clients / fd_to_conn / poll registrations hold no departed client, "
-            "one-shot serves exactly one connection.",
+            "one-shot serves exactly one connection. Also: a client in the middle of a frame at close(), connect-and-reset knocks, "
+            "authenticators that hand back the same socket or a duplicate, zombie census for the forking server.",
             "DESIGN.md C17", "Known finding D10 (ForkingServer.close cannot reach its children) on the modelled fork."),
     "C18": ("exploration",
             "deterministic simulation with fault injection: real UDP/TCP registry loops and clients on the in-memory kernel under a virtual clock, seeded register/unregister/query/clock histories interleaved with hostile datagrams and TCP clients; oracle = registry map model",
@@ -96,7 +101,8 @@ CHECKS = {
             "interval) x 26 kinds of hostile input (arbitrary bytes, every well-formed-but-wrong message shape, oversized datagrams; silent / "
             "partial / resetting TCP clients) x UDP loss / duplication / reordering. The model is fed with the commands the server really processed; "
             "every reply, the added/removed notification log (exactly once per membership change) and the final table must agree, and after every "
-            "hostile input the main loop must be alive and process a good query within a few virtual seconds.",
+            "hostile input the main loop must be alive and process a good query within a few virtual seconds. Half of the TCP runs give the "
+            "registry process a small descriptor limit, so that anything it forgets to close stops it after a handful of requests.",
             "DESIGN.md C18", ""),
     "C19": ("exploration",
             "deterministic simulation: conversations between the real implementation and an independently written reference codec/peer (both directions, plus real<->real with a tap); every frame re-encoded by the reference and compared byte for byte",
@@ -105,7 +111,8 @@ CHECKS = {
             "the published format with numeric literals; frames of the real side must parse (4-byte big-endian length, flag, newline), compress only "
             "above the threshold at zlib level 1, decode and re-encode to the identical bytes (documented tags, shortest form), use the published "
             "kinds/labels/handlers, and mean the same (results checked against local evaluation; the reference server checks which handler each "
-            "client operation used).",
+            "client operation used). Also: keyword arguments in call order on handlers 7/8 and the async/timed helpers, values of 255/256/257 "
+            "elements/bytes/digits, incompressible payloads, lone-surrogate text, boxing labels of subclass instances, a platform without zlib.",
             "DESIGN.md C19", "The single-value half of the property (one value -> bytes) has no schedule in it and is covered only as part of these "
             "conversations."),
     "C10": ("exploration",
@@ -123,8 +130,9 @@ CHECKS = {
             "once, tables released, close idempotent and never raising, every request = value the peer sent | EOFError, nobody hangs (scheduler "
             "deadlock detector; running into the rpyc timeout counts as a hang).",
             "DESIGN.md C11", "A requester-side write failure need only leave the stream closed (statement promises 'closed' for sides that "
-            "close, are told to close, or fail while serving). close() from a second thread racing the serving thread is outside the "
-            "statement's quantifier (no schedules) and is not generated."),
+            "close, are told to close, or fail while serving). Two-thread workloads (a requester parked while the serving thread meets the end; close() from a third "
+            "thread; hooks that close again, talk to the peer or wait for the application's own threads) are generated; two unsynchronised "
+            "close() calls racing each other are not."),
     "C15": ("exploration",
             "deterministic simulation in virtual time: seeded timelines of reply instants, expiries, busy periods and queries; oracle = executable AsyncResult/mailbox model compared instant by instant",
             "Seeded search over virtual-time orderings of reply arrival, expiry, callback registration, ready/error/expired/value/wait/repr queries, "
@@ -137,7 +145,8 @@ CHECKS = {
             "Seeded search over interleavings of 2-3 sender threads (plus a re-entrant send from a proxy finalizer inside the transport write) with "
             "a pre-emption point at every source line of the send hand-off; strategies random walk / bounded pre-emption / PCT / window widening. "
             "Oracle on the recorded byte stream: whole contiguous frames, multiset equality (exactly once), per-thread order, distinct sequence "
-            "numbers, empty queue, free lock, no deadlock (scheduler detector).",
+            "numbers, empty queue, free lock, no deadlock (scheduler detector). In half of the runs a further thread serves incoming requests, "
+            "so replies are among the concurrent sends; pre-emption also inside the encoder (it runs outside the send lock).",
             "DESIGN.md C12", "Seeded search, not exhaustive enumeration of the two-thread schedule space (that would be model checking); "
             "depth-3 races are reached at roughly 1 in 10^4 schedules, so they need the thorough tier."),
     "C14": ("exploration",
@@ -154,7 +163,10 @@ CHECKS = {
             "bounded / PCT / window widening) of threads sharing one connection, the peer answering in any order and calling back. Safety is "
             "enforced in full in every run (own reply exactly once, each incoming frame dispatched once, distinct sequence numbers, no "
             "callback left, no deadlock). Liveness (no sleeping through a wake-up) is judged in virtual time; stalls whose wait began after "
-            "another thread had received the awaited reply are the known finding D7 (shared with C14), all other stalls are violations.",
+            "another thread had received the awaited reply are the known finding D7 (shared with C14), all other stalls are violations. "
+            "Independent structural invariants (missed wake-up at an all-blocked instant, re-park with the reply processed, no nested request "
+            "for built-in types) keep other causes of the same symptom reportable; the request counter starts anywhere in its number space and "
+            "skips ahead by 2^16/2^31/2^32 once; concurrent failing requests must carry their own tracebacks; unsendable requests.",
             "DESIGN.md C13", "Known finding D7 recorded in known_findings.json."),
     "C20": ("exploration",
             "deterministic simulation supplies the two peers and a fragmenting/compressing transport; the deciding step is seeded generation of trees, sizes, chunk sizes and filters with a byte-wise tree comparison",
